@@ -30,6 +30,22 @@ const (
 	kJump
 )
 
+// zeroSize reports whether values of t occupy no memory (accesses to them are not memory accesses).
+func zeroSize(t types.Type) bool {
+	switch u := t.Underlying().(type) {
+	case *types.Struct:
+		for k := 0; k < u.NumFields(); k++ {
+			if !zeroSize(u.Field(k).Type()) {
+				return false
+			}
+		}
+		return true
+	case *types.Array:
+		return u.Len() == 0 || zeroSize(u.Elem())
+	}
+	return false
+}
+
 func mustDeref(t types.Type) types.Type {
 	if p, ok := t.Underlying().(*types.Pointer); ok {
 		return p.Elem()
@@ -258,7 +274,9 @@ func visitInstr(fr *frame, instr ssa.Instruction) continuation {
 		if addr == nil {
 			panic(runtimeError("invalid memory address or nil pointer dereference"))
 		}
-		i.memAccess(fr, addr, true)
+		if !zeroSize(mustDeref(instr.Addr.Type())) {
+			i.memAccess(fr, addr, true)
+		}
 		store(mustDeref(instr.Addr.Type()), addr, fr.get(instr.Val))
 
 	case *ssa.If:
